@@ -6,6 +6,10 @@ centroid_sources`` and compared with
 
 * the moment definition of the centre of mass (math.fsum reference),
 * the analytic vertex of exactly quadratic peaks,
+* for ``centroid_quadratic(xpeak, ypeak, search_boxsize)`` on data that are NOT quadratic: an
+  independent re-implementation of the documented algorithm (brightest unmasked pixel of the
+  search box around the guess, least-squares quadratic in the fit box around it) with the guess on
+  EVERY pixel of the array (edges and corners: trimmed search boxes),
 * the symmetry centre of point-symmetric sources,
 * metamorphic relations (flips, transposition, positive rescaling, values
   underneath the mask), and
@@ -27,15 +31,32 @@ RULE = ('full Cartesian products: (sym) every cutout shape in {3..9}^2 x every s
         'lattice with >= 1 px of support on each side x {zero-filled, masked garbage incl. NaN/inf} x 4 centroid '
         'functions; (generic) shapes x generic signed/peaked arrays x {flipud, fliplr, both, transpose, x2, x1e-3, '
         'NaN<->mask}; (quad) shapes x every interior peak pixel x 5x5 sub-pixel vertex lattice x 3 curvature sets '
-        'x fit_boxsize x mask variant x (xpeak, ypeak, search_boxsize) variant; (sources) every ordered list of '
+        'x fit_boxsize x mask variant x (xpeak, ypeak, search_boxsize) variant; (qsearch) centroid_quadratic on '
+        'non-quadratic data: shapes x {generic noise, four sources next to the corners, point-symmetric source '
+        'centred on every interior pixel} x guess (xpeak, ypeak) on EVERY pixel of the array incl. edges and corners '
+        '(for the symmetric sources: every pixel within reach of the largest search box) x {integer, fractional} '
+        'guess x search_boxsize {3, 5, (3,5), (5,3)} x fit_boxsize {3, 5, (3,5)} x {no mask, brightest pixel of the '
+        'search box masked with 1e6 underneath, the same pixel NaN}, judged by: same result as giving the '
+        'independently found brightest pixel as the guess (bit-exact), edge rule, independent least-squares fit, '
+        'symmetry centre, and flips/transposition of the complete call; non-trivial = the search moved the start '
+        'pixel or the search box is trimmed by the array border; (sources) every ordered list of '
         '1-3 distinct positions out of 4 (+ a repeated one) x cutout spec {box 5, box (5,7), cross footprint, even '
-        '4x6 footprint} x mask x centroid function x {error, xpeak/ypeak} keyword. A case counts as non-trivial '
+        '4x6 footprint} x mask x centroid function x {error, xpeak/ypeak, xpeak/ypeak/search_boxsize} keyword. A case counts as non-trivial '
         'when the rule of its clause applies (well-posedness rules are evaluated on the INPUT and stated next to '
         'each clause); for sources: the list has >= 2 positions.')
 ASSUMPTIONS = ['numpy, math.fsum, astropy.modeling fitters (TRFLSQFitter) are trusted',
                'the cutout of a position is the astropy overlap_slices window [ceil(p - n/2), ceil(p - n/2) + n) '
                'clipped to the image; half-integer positions (ties of "centred") are not in the alphabet',
-               'Gaussian-fit clauses are applied only to single-peaked positive inputs (rule evaluated on the input)']
+               'Gaussian-fit clauses are applied only to single-peaked positive inputs (rule evaluated on the input)',
+               'the "box of size search_boxsize" is the set of pixels within (n-1)/2 of the pixel nearest to (xpeak, '
+               'ypeak) (round half away from zero; the fractional guesses of the alphabet are not ties), clipped to '
+               'the array; cases whose brightest pixel in that box is not unique are skipped (tie-break unspecified)',
+               'the placement of a fit box that would stick out of the array is not documented: the independent-fit '
+               'and symmetry-centre clauses of (qsearch) apply only where the centred fit box lies inside the array '
+               '(the bit-exact start-pixel clause and the flip/transpose clauses apply everywhere)',
+               'numpy.linalg.solve / cond (normal equations in box-centred coordinates) are trusted for the '
+               'independent quadratic fit; sign decisions within 1e-9 relative of zero curvature/determinant and '
+               'vertices within 1e-7 of the image border are not judged']
 
 EPS = np.finfo(float).eps
 FUNC_NAMES = ('com', 'quad', '1dg', '2dg')
@@ -421,6 +442,224 @@ def check_quad(acc, case, seed, F):
 
 
 # ----------------------------------------------------------------------------
+# (qsearch) xpeak / ypeak / search_boxsize on data that are NOT exactly quadratic
+# (on exactly quadratic data every fit box returns the same vertex, so the (quad) family cannot see WHICH pixel
+# the fit box was centred on).  Documented algorithm: the initial centre of the fit box is the pixel nearest to
+# (xpeak, ypeak); with search_boxsize it is the brightest (unmasked, finite) pixel within the box of that size
+# centred on that pixel (the part of the box inside the data); the quadratic is then fitted in the box of
+# fit_boxsize around that pixel; a start pixel on the edge is returned as is.
+SSHAPES_QUICK = [(5, 5), (6, 7)]
+SSHAPES_THOROUGH = SSHAPES_QUICK + [(7, 5), (5, 8), (8, 6), (9, 9)]
+SBOXES = (3, 5, (3, 5), (5, 3))
+SFITS = (3, 5, (3, 5))
+SPEAKV = ('int', 'frac')
+SMASKS = ('none', 'max-masked', 'max-nan')
+STRANSFORMS = ('flipud', 'fliplr', 'flipboth', 'transpose')
+
+
+def make_sdata(ny, nx, dspec, seed):
+    """dspec: ['noise'] generic positive reals | ['peaks'] four Gaussian-like sources next to the four corners
+    at generic sub-pixel positions + 3 % modulation | ['sym', cx, cy] point-symmetric peaked source centred on
+    pixel (cx, cy), zero outside the symmetric support."""
+    if dspec[0] == 'sym':
+        s, sup = make_sym(ny, nx, 2 * dspec[1], 2 * dspec[2], seed, peaked=True, amp=0.02)
+        return 40.0 * s, sup
+    rng = rng_for(seed, 5, ny, nx, 0 if dspec[0] == 'noise' else 1)
+    if dspec[0] == 'noise':
+        return rng.random((ny, nx)) + 0.05, None
+    yy, xx = np.mgrid[0:ny, 0:nx]
+    off = 0.15 + 0.3 * rng.random(8)
+    cen = ((1 + off[0], 1 - off[1], 50.0), (nx - 2 - off[2], 1 + off[3], 40.0),
+           (1 - off[4], ny - 2 + off[5], 45.0), (nx - 2 + off[6], ny - 2 - off[7], 35.0))
+    d = np.zeros((ny, nx))
+    for (x0, y0, a) in cen:
+        d += a * np.exp(-((xx - x0) ** 2 + (yy - y0) ** 2) / (2 * 1.1 ** 2))
+    return d * (1 + 0.03 * rng.random((ny, nx))), None
+
+
+def pair(b):
+    return (int(b), int(b)) if np.isscalar(b) else (int(b[0]), int(b[1]))
+
+
+def ref_fit(v, sy, sx, fbox):
+    """Independent least-squares quadratic in the fit box CENTRED on (sx, sy) (caller guarantees that the box is
+    inside the data), NaN = excluded pixel.  Normal equations in box-centred integer coordinates (|u| <= 2:
+    condition number of the 6x6 Gram matrix < 1e3) -> ('nan'|'ok'|'ambiguous', vertex)."""
+    ny, nx = v.shape
+    hy, hx = fbox[0] // 2, fbox[1] // 2
+    us, ws, zs = [], [], []
+    for y in range(sy - hy, sy + hy + 1):
+        for x in range(sx - hx, sx + hx + 1):
+            if np.isfinite(v[y, x]):
+                us.append(x - sx)
+                ws.append(y - sy)
+                zs.append(v[y, x])
+    if len(zs) < 6:
+        return 'nan', None
+    u, w, z = np.array(us, float), np.array(ws, float), np.array(zs, float)
+    A = np.stack([np.ones_like(u), u, w, u * w, u * u, w * w], axis=1)
+    G = A.T @ A
+    if np.linalg.cond(G) > 1e6:
+        return 'ambiguous', None      # masked pixel makes the 6-parameter fit (nearly) rank deficient
+    c = np.linalg.solve(G, A.T @ z)
+    _, c10, c01, c11, c20, c02 = c
+    det = 4 * c20 * c02 - c11 ** 2
+    scale = c20 ** 2 + c02 ** 2 + c11 ** 2
+    if abs(det) <= 1e-9 * scale or min(abs(c20), abs(c02)) <= 1e-9 * math.sqrt(scale):
+        return 'ambiguous', None      # sign of the curvature decided by rounding
+    if det < 0 or c20 > 0 or c02 > 0:
+        return 'nan', None            # documented: fit has no maximum
+    xm = (c01 * c11 - 2.0 * c02 * c10) / det + sx
+    ym = (c10 * c11 - 2.0 * c20 * c01) / det + sy
+    for t, n in ((xm, nx), (ym, ny)):
+        if min(abs(t), abs(t - (n - 1))) < 1e-7:
+            return 'ambiguous', None
+    if not (0.0 < xm < nx - 1 and 0.0 < ym < ny - 1):
+        return 'nan', None            # documented: maximum outside the image
+    return 'ok', np.array([xm, ym])
+
+
+def t_box(tname, b):
+    return b if (tname != 'transpose' or np.isscalar(b)) else (b[1], b[0])
+
+
+def check_qsearch(acc, case, seed, F):
+    ny, nx = case['shape']
+    dspec = case['data']
+    xp0, yp0 = case['pix']
+    sbox = case['sbox']
+    sbox = tuple(sbox) if isinstance(sbox, (list, tuple)) else sbox
+    fbox = case['fbox']
+    fbox = tuple(fbox) if isinstance(fbox, (list, tuple)) else fbox
+    pv, mvar = case['peakv'], case['mask']
+    f = F['quad']
+    d0, sup = make_sdata(ny, nx, dspec, seed)
+    if pv == 'int':
+        xpeak, ypeak = float(xp0), float(yp0)
+    else:       # generic fractional guess that rounds to the same pixel and stays inside [0, n-1]
+        xpeak = xp0 + 0.3 if xp0 < nx - 1 else xp0 - 0.3
+        ypeak = yp0 - 0.3 if yp0 > 0 else yp0 + 0.3
+    rx, ry = round_half_away(xpeak), round_half_away(ypeak)
+    sh, fh = pair(sbox), pair(fbox)
+    y0, y1 = max(ry - sh[0] // 2, 0), min(ry + sh[0] // 2 + 1, ny)
+    x0, x1 = max(rx - sh[1] // 2, 0), min(rx + sh[1] // 2 + 1, nx)
+    trim = ('x' if x1 - x0 < sh[1] else '') + ('y' if y1 - y0 < sh[0] else '') or 'none'
+
+    def brightest(v):
+        sub = v[y0:y1, x0:x1]
+        fin = np.where(np.isfinite(sub), sub, -np.inf)
+        m = fin.max()
+        if not np.isfinite(m) or np.count_nonzero(fin == m) != 1:
+            return None
+        j = np.argwhere(fin == m)[0]
+        return int(j[0]) + y0, int(j[1]) + x0
+
+    data, mask = d0.copy(), None
+    v = d0.copy()                      # NaN = pixel excluded from the calculation
+    if mvar != 'none':
+        b = brightest(d0)
+        if b is None:
+            acc.skip('qsearch: maximum in the search box not unique')
+            return
+        v[b] = np.nan
+        if mvar == 'max-masked':
+            mask = np.zeros((ny, nx), bool)
+            mask[b] = True
+            data[b] = 1.0e6            # arbitrary (large) value underneath the mask
+        else:
+            data[b] = np.nan
+    st_ = brightest(v)
+    if st_ is None:
+        acc.skip('qsearch: maximum in the search box not unique')
+        return
+    sy, sx = st_
+    kwm = {} if mask is None else {'mask': mask}
+    kw = dict(kwm, xpeak=xpeak, ypeak=ypeak, search_boxsize=sbox, fit_boxsize=fbox)
+    st, r = call(f, data, **kw)
+    moved = (sy, sx) != (ry, rx)
+    acc.case(nontrivial=moved or trim != 'none', sample=case if acc.evaluations % 6007 == 17 else None)
+    if st != 'ok':
+        acc.violation('qsearch-raises', f'trim={trim}', case, r, 'no exception', 'valid call raised')
+        return
+    acc.outcome((trim, moved, round(float(r[0]), 6) if np.isfinite(r[0]) else 'nan'))
+    edge = sx in (0, nx - 1) or sy in (0, ny - 1)
+    # (a) the search only relocates the start pixel: same result as giving the brightest pixel of the search box
+    #     (found independently) as (xpeak, ypeak) without a search box -- identical arithmetic, bit-exact
+    st1, r1 = call(f, data, xpeak=float(sx), ypeak=float(sy), fit_boxsize=fbox, **kwm)
+    if st1 != 'ok' or not np.array_equal(r, r1, equal_nan=True):
+        acc.violation('search-start-pixel', f'trim={trim}', case, r, r1,
+                      f'brightest unmasked pixel of the search box rows {y0}:{y1}, cols {x0}:{x1} is (x={sx}, y={sy}); '
+                      'the result differs from centroid_quadratic(xpeak=x, ypeak=y) without search_boxsize')
+    # (b) documented edge rule
+    if edge:
+        if not np.array_equal(r, [sx, sy]):
+            acc.violation('quad-edge-rule', f'search:trim={trim}', case, r, [sx, sy],
+                          'start pixel on the edge: documented to return the position of that pixel')
+    else:
+        # (c) independent fit, only where the fit box centred on the start pixel lies inside the data
+        #     (placement of a clipped fit box is not documented)
+        if fh[0] // 2 <= sy < ny - fh[0] // 2 and fh[1] // 2 <= sx < nx - fh[1] // 2:
+            kind, ref = ref_fit(v, sy, sx, fh)
+            # tolerance: two least-squares solvers on <= 25 points, Gram condition < 1e6, vertex inside the image
+            # (|vertex - start| < 9 bounds the amplification); measured worst on the unchanged tree (seeds 0-2,
+            # shapes 5x5, 6x7, 7x5, 9x9): 9.5e-13 -> 1e-8
+            if kind == 'nan' and not np.all(np.isnan(r)):
+                acc.violation('search-fit', 'expected-nan', case, r, [np.nan, np.nan],
+                              'independent fit around the start pixel has no maximum inside the image (documented NaN)')
+            elif kind == 'ok' and not np.all(np.abs(r - ref) <= 1e-8):
+                acc.violation('search-fit', f'trim={trim}', case, r, ref,
+                              f'independent least-squares quadratic in the {fh} box centred on (x={sx}, y={sy})')
+        # (d) symmetry centre: point-symmetric source whose centre pixel is the unique brightest pixel of the
+        #     search box and whose (unclipped) fit box lies inside the symmetric support
+        if dspec[0] == 'sym' and mvar == 'none' and (sx, sy) == (dspec[1], dspec[2]):
+            hy, hx = fh[0] // 2, fh[1] // 2
+            if (hy <= sy < ny - hy and hx <= sx < nx - hx and sup[sy - hy:sy + hy + 1, sx - hx:sx + hx + 1].all()):
+                if not np.all(np.abs(r - (sx, sy)) <= 1e-9):
+                    acc.violation('symmetry-centre', f'quad:search:trim={trim}', case, r, [sx, sy],
+                                  'point-symmetric source, guess off-centre, centre pixel brightest in the search box')
+    # (e) flips / transposition of the complete call (data, mask, xpeak, ypeak, box sizes)
+    for tname in STRANSFORMS:
+        kw2 = {'xpeak': None, 'ypeak': None, 'search_boxsize': t_box(tname, sbox), 'fit_boxsize': t_box(tname, fbox)}
+        kw2['xpeak'], kw2['ypeak'] = [float(t) for t in map_xy(tname, (xpeak, ypeak), ny, nx)]
+        if mask is not None:
+            kw2['mask'] = transform(tname, mask)
+        st2, r2 = call(f, transform(tname, data), **kw2)
+        want = map_xy(tname, r, ny, nx)
+        if st2 != 'ok':
+            acc.violation('commute-raises', f'quad-search:{tname}', case, r2, want)
+            continue
+        # same tolerance and justification as the (generic) family: the transforms change the rounding only;
+        # measured worst (seeds 0-2, shapes 5x5, 6x7, 7x5, 9x9): 1.9e-12 (symmetry-centre clause above: 8.6e-14)
+        bad = ~((np.abs(r2 - want) <= 1e-9) | (np.isnan(r2) & np.isnan(want)))
+        if bad.any():
+            acc.violation('commutes', f'quad-search:{tname}', case, r2, want,
+                          f'f(T(data), T(xpeak, ypeak, boxes)) != T(f(data)); search box trim={trim}')
+
+
+def qsearch_data(tier, ny, nx):
+    out = [['noise'], ['peaks']]
+    out += [['sym', cx, cy] for cx in range(1, nx - 1) for cy in range(1, ny - 1)]
+    return out
+
+
+def qsearch_cases(tier, ny, nx, dspec):
+    for xp in range(nx):
+        for yp in range(ny):
+            if dspec[0] == 'sym' and (abs(xp - dspec[1]) > 2 or abs(yp - dspec[2]) > 2):
+                continue        # the largest search box cannot reach the source centre
+            for sbox in SBOXES:
+                for fbox in SFITS:
+                    for pv in SPEAKV:
+                        for mvar in SMASKS:
+                            if dspec[0] == 'sym' and mvar != 'none':
+                                continue    # (the next brightest pixels of a symmetric source form tied pairs)
+                            yield {'kind': 'qsearch', 'shape': [ny, nx], 'data': list(dspec), 'pix': [xp, yp],
+                                   'sbox': list(sbox) if isinstance(sbox, tuple) else sbox,
+                                   'fbox': list(fbox) if isinstance(fbox, tuple) else fbox,
+                                   'peakv': pv, 'mask': mvar}
+
+
+# ----------------------------------------------------------------------------
 # (sources) centroid_sources == centroid function on every position's cutout
 IMG_SHAPE = (13, 15)
 # (x, y): interior; cut by the right edge; cut by the corner; fractional (window by the ceil rule).
@@ -481,9 +720,11 @@ def expected_position(F, fname, img, err, mask, fp, pos, use_mask, extra):
     kw = {'mask': mcut}
     if extra == 'error' and fname in ('1dg', '2dg'):
         kw['error'] = err[y0:y1, x0:x1]
-    if extra == 'peak' and fname == 'quad':
+    if extra in ('peak', 'peaksearch') and fname == 'quad':
         kw['xpeak'] = XYPEAK[0] - x0
         kw['ypeak'] = XYPEAK[1] - y0
+        if extra == 'peaksearch':
+            kw['search_boxsize'] = 3
     st, r = call(F[fname], cut, **kw)
     if st != 'ok':
         if r.startswith(('ValueError', 'TypeError')):
@@ -515,8 +756,10 @@ def check_sources(acc, case, seed, F, cache=None):
         kw['mask'] = mask.copy()
     if extra == 'error':
         kw['error'] = err.copy()
-    elif extra == 'peak':
+    elif extra in ('peak', 'peaksearch'):
         kw['xpeak'], kw['ypeak'] = XYPEAK
+        if extra == 'peaksearch':
+            kw['search_boxsize'] = 3
     cache = {} if cache is None else cache
     want = []
     for i in plist:
@@ -545,7 +788,8 @@ def check_sources(acc, case, seed, F, cache=None):
         k = bad[0]
         where = 'first-position' if k == 0 else 'later-position'
         kwname = {'error': 'error' if fname in ('1dg', '2dg') else 'error(ignored)',
-                  'peak': 'xpeak/ypeak' if fname == 'quad' else 'xpeak/ypeak(ignored)', 'none': 'none'}[extra]
+                  'peak': 'xpeak/ypeak' if fname == 'quad' else 'xpeak/ypeak(ignored)',
+                  'peaksearch': 'xpeak/ypeak/search_boxsize', 'none': 'none'}[extra]
         acc.violation('sources-per-position', f'kw={kwname}:{where}', case, got.tolist(), want.tolist(),
                       f'position #{k} of {len(plist)} differs from {fname} on its own cutout (bit-exact comparison)')
 
@@ -580,7 +824,9 @@ def source_configs():
     for fname in FUNC_NAMES:
         for spec in SPECS:
             for use_mask in (False, True):
-                for extra in ('none', 'error', 'peak'):
+                for extra in ('none', 'error', 'peak', 'peaksearch'):
+                    if extra == 'peaksearch' and fname != 'quad':
+                        continue     # search_boxsize exists only for centroid_quadratic
                     if extra == 'peak' and fname != 'quad' and spec != 'box5':
                         continue     # ignored keyword: one cutout spec is enough
                     if extra == 'error' and fname in ('com', 'quad') and spec != 'box5':
@@ -600,6 +846,11 @@ def plan(tier, seed):
         units.append({'kind': 'quad', 'shard': j, 'nshards': nq})
     for cfg in source_configs():
         units.append({'kind': 'sources', 'cfg': list(cfg)})
+    # appended last so that the indices of the older units stay stable
+    for (ny, nx) in (SSHAPES_THOROUGH if tier == 'thorough' else SSHAPES_QUICK):
+        ds = qsearch_data(tier, ny, nx)
+        for j in range(0, len(ds), 3):
+            units.append({'kind': 'qsearch', 'shape': [ny, nx], 'data': ds[j:j + 3]})
     return units
 
 
@@ -621,6 +872,11 @@ def run_unit(unit, tier, seed):
         for i, case in enumerate(quad_cases(tier)):
             if i % unit['nshards'] == unit['shard']:
                 check_quad(acc, case, seed, F)
+    elif kind == 'qsearch':
+        ny, nx = unit['shape']
+        for dspec in unit['data']:
+            for case in qsearch_cases(tier, ny, nx, dspec):
+                check_qsearch(acc, case, seed, F)
     else:
         fname, spec, use_mask, extra = unit['cfg']
         cache = {}
@@ -640,6 +896,8 @@ def replay(case, seed):
         check_generic(acc, case, seed, F)
     elif kind == 'quad':
         check_quad(acc, case, seed, F)
+    elif kind == 'qsearch':
+        check_qsearch(acc, case, seed, F)
     else:
         check_sources(acc, case, seed, F)
     return acc
@@ -655,9 +913,17 @@ def describe(tier, seed):
         'quad': {'shapes': QSHAPES_THOROUGH if tier == 'thorough' else QSHAPES_QUICK, 'frac': list(FRACS),
                  'curvatures (cxx, cyy, cxy)': [list(c) for c in CURV], 'fit_boxsize': [3, 5, [3, 5]],
                  'mask': list(QMASKS), 'xpeak/ypeak': list(PEAKS)},
+        'qsearch': {'shapes': SSHAPES_THOROUGH if tier == 'thorough' else SSHAPES_QUICK,
+                    'data': ['noise (generic positive)', 'peaks (4 sources next to the corners, sub-pixel centres)',
+                             'sym (point symmetric about every interior pixel)'],
+                    'guess (xpeak, ypeak)': 'every pixel of the array (sym: Chebyshev distance <= 2 of the centre)',
+                    'guess kind': list(SPEAKV), 'search_boxsize': [3, 5, [3, 5], [5, 3]], 'fit_boxsize': [3, 5, [3, 5]],
+                    'mask': list(SMASKS) + ['(sym: none only)'], 'transforms': list(STRANSFORMS),
+                    'clauses': ['search-start-pixel (bit-exact)', 'quad-edge-rule', 'search-fit (1e-8)',
+                                'symmetry-centre (1e-9)', 'commutes (1e-9)']},
         'sources': {'image': list(IMG_SHAPE),
                     'positions (x, y)': [list(p) for p in (POSITIONS_THOROUGH if tier == 'thorough' else POSITIONS)],
                     'lists': ('all ordered lists of 1-4 distinct positions out of 5 (205)' if tier == 'thorough' else
                               'all ordered lists of 1-3 distinct positions out of 4 (40)') + ' + [0,0] + [1,0,1]',
-                    'cutout': list(SPECS), 'mask': [False, True], 'extra': ['none', 'error', 'xpeak/ypeak'],
+                    'cutout': list(SPECS), 'mask': [False, True], 'extra': ['none', 'error', 'xpeak/ypeak', 'xpeak/ypeak/search_boxsize=3 (quad)'],
                     'functions': list(FUNC_NAMES)}}}
